@@ -176,7 +176,7 @@ func (sr *simRepl) fail(err error) {
 }
 
 // stepSend: one write by the replication goroutine (connecting first if needed).
-func (c *simCluster) stepReplSend(i, j uint64) map[string]interface{} {
+func (c *simCluster) stepReplSend(i, j uint64, dialFail bool) map[string]interface{} {
 	sr := c.findRepl(i, j)
 	if sr == nil {
 		return skipped("no such replication")
@@ -185,6 +185,9 @@ func (c *simCluster) stepReplSend(i, j uint64) map[string]interface{} {
 		return skipped("snapshot in flight")
 	}
 	ev := map[string]interface{}{"kind": "replSend", "i": i, "j": j}
+	if dialFail && sr.conn != nil {
+		return skipped("connection is open")
+	}
 	died := sr.guard(func() {
 		r := sr.r
 		if sr.conn == nil {
@@ -193,7 +196,10 @@ func (c *simCluster) stepReplSend(i, j uint64) map[string]interface{} {
 				sr.poll()
 			}
 			target := c.nodes[j]
-			ok := target != nil && target.up
+			ok := target != nil && target.up && !dialFail
+			if dialFail {
+				ev["dialFail"] = true
+			}
 			if ok {
 				ok = c.identityHandshake(i, target)
 			}
